@@ -739,6 +739,58 @@ def parse (v : Variant) (pkt : Bytes) : Parsed :=
     | .ok ms => { fmt := .pb, delivered := ms }
     | .error (e, rest) => { fmt := .pb, err := some e, perr := rest ≠ [] }
 
+/-! ## TCP / unix stream framing (receiver_tcp.go: TCP.receiveLoop)
+
+  A connection carries frames `uint32-LE bodyLen ++ body`, `bodyLen ≤ MaxTCPFrameBody`; every body goes to parser.parse.
+  `maxBody` and `bufSize` are parameters: the code has `MaxTCPFrameBody` (regenerated into SH/Gen/C13.lean) and a read
+  buffer `make([]byte, 4+MaxTCPFrameBody)`. -/
+
+def frame (body : Bytes) : Bytes := le 4 body.length ++ body
+
+inductive ConnEnd | eof | framing | stall
+deriving DecidableEq, Repr
+
+/-- the inner `for` loop over the buffered bytes: complete frames, the unconsumed rest, and whether a length header
+    above `maxBody` was met (the loop then returns a framing error and the connection is closed) -/
+def splitF (maxBody : Nat) : Nat → Bytes → List Bytes × Bytes × Bool
+  | 0, b => ([], b, false)
+  | f + 1, b =>
+    if b.length < 4 then ([], b, false)
+    else if rdLE (b.take 4) > maxBody then ([], b, true)
+    else if b.length < 4 + rdLE (b.take 4) then ([], b, false)
+    else
+      let t := splitF maxBody f (b.drop (4 + rdLE (b.take 4)))
+      ((b.drop 4).take (rdLE (b.take 4)) :: t.1, t.2.1, t.2.2)
+
+/-- specification: the frames of a whole byte stream (unbounded buffer) -/
+def deframe (maxBody : Nat) (stream : Bytes) : List Bytes × Bytes × Bool := splitF maxBody (stream.length + 1) stream
+
+structure Conn where
+  buf : Bytes := []            -- data[:size] carried over between reads
+  frames : List Bytes := []    -- bodies handed to parse so far
+  ending : Option ConnEnd := none
+deriving DecidableEq, Repr
+
+/-- the outer loop while `avail` bytes are readable: each `conn.Read(data[size:])` takes what fits into the free part
+    of the buffer; a full buffer without a complete frame makes Read return (0, nil) forever (`stall`) -/
+def recv (maxBody bufSize : Nat) : Nat → Conn → Bytes → Conn
+  | 0, c, _ => c
+  | f + 1, c, avail =>
+    if c.ending.isSome then c
+    else if avail = [] then c
+    else if bufSize - c.buf.length = 0 then { c with ending := some .stall }
+    else
+      let got := c.buf ++ avail.take (bufSize - c.buf.length)
+      let t := splitF maxBody (got.length + 1) got
+      if t.2.2 then { c with frames := c.frames ++ t.1, buf := t.2.1, ending := some .framing }
+      else recv maxBody bufSize f { c with frames := c.frames ++ t.1, buf := t.2.1 } (avail.drop (bufSize - c.buf.length))
+
+/-- a connection fed with the given write chunks, then closed by the client -/
+def runConn (maxBody bufSize : Nat) (chunks : List Bytes) : Conn :=
+  let c := chunks.foldl (fun c ch => recv maxBody bufSize (ch.length + 1) c ch) {}
+  if c.ending.isSome then c else { c with ending := some .eof }
+
+
 /-! ## canonical client encoders (tied to the real encoders by the `enc` op of the correspondence) -/
 
 def catMap {α : Type} (f : α → Bytes) : List α → Bytes
